@@ -549,6 +549,65 @@ def pull_down_new_bases(trees: dict[str, ast.Module]) -> dict[str, list[str]]:
 
 
 
+def pull_down_displaced_methods(trees: dict[str, ast.Module]) -> dict[str, list[str]]:
+    """A method that the pinned tree defines in class C (``C.m`` is in
+    PUBLIC_CALLABLES) but that C now inherits - pulled up into a base class
+    as a template method whose steps C overrides - is copied back into C
+    from the nearest base of the package that defines it.  The steps
+    (``self._compute_reward(...)``) then resolve in C, where the rules look.
+    Not done when the inherited body uses ``super()`` (it would mean another
+    class after the copy) or C is not a pinned class."""
+    import copy as _copy
+
+    from .baseline_api import ALL_CLASSES
+
+    notes: dict[str, list[str]] = {}
+    classes = _classes(trees)
+    uniq = {k: v[0] for k, v in classes.items() if len(v) == 1}
+    wanted: dict[str, list[str]] = {}
+    for key in PUBLIC_CALLABLES:
+        if "." in key:
+            c, m = key.split(".", 1)
+            if "." not in m and not (m.startswith("__") and m.endswith("__")):
+                wanted.setdefault(c, []).append(m)
+    for cname, ms in sorted(wanted.items()):
+        if cname not in uniq or cname not in ALL_CLASSES:
+            continue
+        rel_c, c = uniq[cname]
+        own = {st.name for st in c.body if isinstance(st, (ast.FunctionDef, ast.AsyncFunctionDef))}
+        own |= {t.id for st in c.body if isinstance(st, (ast.Assign, ast.AnnAssign)) for t in (st.targets if isinstance(st, ast.Assign) else [st.target]) if isinstance(t, ast.Name)}
+        for m in sorted(ms):
+            if m in own:
+                continue
+            # nearest base (depth first, left to right) of the package that defines m
+            found, seen, work = None, set(), [ast.unparse(b).rsplit(".", 1)[-1].split("[")[0] for b in c.bases]
+            while work and found is None:
+                bname = work.pop(0)
+                if bname in seen or bname not in uniq:
+                    continue
+                seen.add(bname)
+                rel_b, b = uniq[bname]
+                d = next((st for st in b.body if isinstance(st, ast.FunctionDef) and st.name == m and not _is_setter(st)), None)
+                if d is not None:
+                    found = (rel_b, b, d)
+                    break
+                work = [ast.unparse(x).rsplit(".", 1)[-1].split("[")[0] for x in b.bases] + work
+            if found is None:
+                continue
+            rel_b, b, d = found
+            if f"{b.name}.{m}" in PUBLIC_CALLABLES:
+                continue  # the pinned tree has the base's method too: C simply dropped its override
+            if any(isinstance(n, ast.Name) and n.id == "super" for n in ast.walk(d)) or "abstractmethod" in " ".join(_deco(d)):
+                continue
+            new = _copy.deepcopy(d)
+            c.body.append(new)
+            used = {n.id for n in ast.walk(new) if isinstance(n, ast.Name) and isinstance(n.ctx, ast.Load)}
+            if rel_b != rel_c:
+                import_names_from(trees, rel_c, rel_b, used, skip={b.name})
+            notes.setdefault(rel_c, []).append(f"{cname}.{m}: inherited from {b.name} now (a template method); copied back into {cname}, where the pinned tree defines it")
+    return notes
+
+
 def import_names_from(trees: dict[str, ast.Module], rel_to: str, rel_from: str, used: set[str], skip: set[str] = frozenset()) -> int:
     """Makes the module-level names of ``rel_from`` that ``used`` mentions and
     ``rel_to`` does not bind available in ``rel_to`` (imports copied, own
